@@ -1825,8 +1825,9 @@ public:
       // Evaluate binary expression.
       int result;
       switch (expr.getOp()) {
-        case Token::PLUS:  result = LHS->getValue() +  RHS->getValue(); break;
-        case Token::MINUS: result = LHS->getValue() -  RHS->getValue(); break;
+        // Wrap around like the ADD and SUB instructions do (no signed overflow).
+        case Token::PLUS:  result = static_cast<int>(static_cast<unsigned>(LHS->getValue()) + static_cast<unsigned>(RHS->getValue())); break;
+        case Token::MINUS: result = static_cast<int>(static_cast<unsigned>(LHS->getValue()) - static_cast<unsigned>(RHS->getValue())); break;
         case Token::EQ:    result = LHS->getValue() == RHS->getValue(); break;
         case Token::NE:    result = LHS->getValue() != RHS->getValue(); break;
         case Token::LS:    result = LHS->getValue() <  RHS->getValue(); break;
@@ -1847,7 +1848,7 @@ public:
       // Evaluate unary expression.
       int result;
       switch (expr.getOp()) {
-        case Token::MINUS: result = -element->getValue(); break;
+        case Token::MINUS: result = static_cast<int>(0U - static_cast<unsigned>(element->getValue())); break;
         case Token::NOT:   result = element->getValue() == 0 ? 1 : 0; break;
         default:
           throw SemanticTokenError(expr.getLocation(), "unexpected unary op", expr.getOp());
